@@ -70,6 +70,13 @@ T_PcPoint == /\ IsEv("pc_point") /\ NoPanic
              /\ PC_PointRejected(E.res)
 T_PcFinalize == IsEv("pc_finalize") /\ NoPanic /\ ChkP(IsOk(E.res), {"C10", "C01"}, "valid-call-rejected") /\ PC_Finalize(E.res)
 T_PcDrop == IsEv("pc_drop") /\ PC_Drop
+\* a second finalize() on the same point cloud / image writer: the object is spent, nothing may be added once more
+T_PcFinalizeAgain == /\ IsEv("pc_finalize_again") /\ NoPanic
+                     /\ ChkP(IsErr(E.res), {"C10", "C01"}, "second-finalize-of-a-point-cloud-writer-accepted")
+                     /\ sc' = sc /\ res' = E.res /\ UNCHANGED file
+T_ImFinalizeAgain == /\ IsEv("im_finalize_again") /\ NoPanic
+                     /\ ChkP(IsErr(E.res), {"C10", "C04"}, "second-finalize-of-an-image-writer-accepted")
+                     /\ sc' = sc /\ res' = E.res /\ UNCHANGED file
 
 T_ImNew == IsEv("im_new") /\ NoPanic /\ ChkP(IsOk(E.res), {"C10"}, "valid-call-rejected") /\ IM_New(E.guid, E.res)
 T_ImSet == IsEv("im_set") /\ IM_Set(E.f, E.v)
@@ -372,7 +379,7 @@ T_QPop ==
     /\ QUnch
 
 ENext == \/ T_Reset \/ T_Panic \/ T_Scene \/ T_RHints \/ T_RSimpleCount \/ T_WNew \/ T_WCoord \/ T_WCreation \/ T_WExt \/ T_WBlob
-         \/ T_PcNew \/ T_PcSet \/ T_PcPoints \/ T_PcPoint \/ T_PcFinalize \/ T_PcDrop
+         \/ T_PcNew \/ T_PcSet \/ T_PcPoints \/ T_PcPoint \/ T_PcFinalize \/ T_PcDrop \/ T_PcFinalizeAgain \/ T_ImFinalizeAgain
          \/ T_ImNew \/ T_ImSet \/ T_ImAdd \/ T_ImFinalize \/ T_ImDrop
          \/ T_WFinalize \/ T_Final \/ T_BigReadback
          \/ T_ROpen \/ T_RReport \/ T_RRaw \/ T_RBlob \/ T_RXml
